@@ -276,6 +276,19 @@ pub fn family() -> Vec<Def> {
             Rm("t"), Add("mc", MutexCell), Add("fp", FnPtr), Close(Simple),
         ],
     });
+    // a variant wider than serde's largest tuple (16): generator decisions that depend on the number of fields.
+    // tier "quick-serde": in the quick tier only its serde harnesses run; every kind in the thorough tier.
+    f.push(Def {
+        name: "wide17",
+        tier: "quick-serde",
+        steps: vec![
+            Add("a", U8), Add("b", U16), Add("s", BoxStr), Close(Simple),
+            Rm("b"),
+            Add("f01", U8), Add("f02", U8), Add("f03", U8), Add("f04", U8), Add("f05", U8), Add("f06", U8), Add("f07", U8),
+            Add("f08", U8), Add("f09", U8), Add("f10", U8), Add("f11", U8), Add("f12", U8), Add("f13", U8), Add("f14", U8),
+            Add("t", Tracked), Close(Simple),
+        ],
+    });
     f.push(Def {
         name: "wide",
         tier: "thorough",
